@@ -590,6 +590,7 @@ func main() {
 	run := fw.Start("C17", "exploration")
 	tmp, err := os.MkdirTemp("", "c17-")
 	must(err)
+	cleanupRoot = tmp
 	e := &explorer{run: run, tmp: tmp, thorough: run.Thorough(), samples: fw.NewSampler(14)}
 	for k := range e.total {
 		e.total[k] = newStats()
